@@ -141,7 +141,7 @@ def block_len(func, blk) -> int:
 @recursive
 def block_beneath(p, block, lo, hi) -> bool:
     """does the block p lie under one of the statements lo <= i < hi of `block`?"""
-    return False if isinstance(p, FuncBody) else \
+    return False if (isinstance(p, FuncBody) or lo >= hi) else \
         ((p.parent.parent == block and lo <= p.parent.index and p.parent.index < hi)
          or block_beneath(p.parent.parent, block, lo, hi))
 
@@ -175,3 +175,19 @@ def run_start(edits, e):
 def in_run(edits, e, blk, p):
     """is position p of block blk one of the statements edit e inserted?"""
     return e.block_path == blk and run_start(edits, e) <= p and p < run_start(edits, e) + e.inserted
+
+
+def overlaps_spec(a, b):
+    """`_overlaps(a, b)` (contract `overlaps`): same block: index test; else b lies below a statement a replaced"""
+    return overlap_in_block(a, b) or (a.block_path != b.block_path
+                                      and block_beneath(b.block_path, a.block_path, a.index, a.index + a.removed))
+
+
+def pairwise_disjoint(L):
+    """no ordered pair of distinct positions of the (concrete-length) list overlaps"""
+    ok = True
+    for x in range(len(L)):
+        for y in range(len(L)):
+            if x != y:
+                ok = ok and not overlaps_spec(L[x], L[y])
+    return ok
